@@ -366,6 +366,35 @@ def r5_insertion(ctx):
     yield Ob('x12context:X12LoopDataNode.add_node refuses a node of another loop', ok, ctx.floc(fn), '' if ok else 'membership check changed')
 
 
+def r7_delete_exactly_one(ctx):
+    """"deleting a segment removes exactly that one": delete_segment decided by constant propagation on a child list with
+    the loop's first segment, two equal segments, a loop and another segment - the first matching segment after the
+    loop's own first one goes, every other child stays, in order; nothing goes when there is no match."""
+    from ..absint import traces, NotClosedTest
+    fn = ctx.func('x12context', 'X12LoopDataNode.delete_segment')
+
+    def node(name, typ, data):
+        return A.Model(name, type=typ, seg_data=data)
+    bad = []
+    for datas, target, want_idx in ((('H', 'A', None, 'A', 'B'), 'A', 1), (('H', 'B', 'A', 'A'), 'A', 2), (('H', 'B'), 'A', None),
+                                    (('A', 'B', 'A'), 'A', 2), (('H', 'A'), 'A', 1)):
+        kids = tuple(node('n%d' % i, 'loop' if d is None else 'seg', d) for i, d in enumerate(datas))
+        env = {'self.children': kids, 'seg_data': target}
+        funcs = {'self._get_segment': lambda x: x, 'self.x12_map_node.get_child_seg_node': lambda x: object(), 'self._cleanup': lambda: None}
+        try:
+            res = traces(ctx.cfg(fn), env, lambda c: None, funcs=funcs, returns=True)
+        except NotClosedTest as e:
+            raise AnalysisError('X12LoopDataNode.delete_segment cannot be decided: %s' % e)
+        want = tuple(k for i, k in enumerate(kids) if i != want_idx)
+        for tr, e_ in res:
+            got = dict(e_).get('self.children')
+            ret = [a_[1][0] for a_ in tr if a_[0] == '@return']
+            if got != want or (ret and bool(ret[-1]) != (want_idx is not None)):
+                bad.append('children %s, delete %r: %s remain, returns %s (expected %s)' % (
+                    list(datas), target, [k.seg_data for k in got] if got is not None else None, ret[-1:] , [k.seg_data for k in want]))
+    yield Ob('x12context:X12LoopDataNode.delete_segment removes exactly the first matching segment', not bad, ctx.floc(fn), '' if not bad else bad[0])
+
+
 def r6_start_node_used(ctx):
     """get / set / exists / count / select / first / delete agree on what a relative path ("../X") addresses: each of
     them resolves the leading ".." steps with _get_start_node, which returns the node to start from and the rest of the
@@ -434,5 +463,6 @@ RULES = [
     Rule('C10.R3', 'iterations over children skip tombstones; one tombstone marker', r3_tombstones, floor=10),
     Rule('C10.R4', 'Segment.set pads before it stores (shared with C17.R4)', r4_set_pads, floor=6),
     Rule('C10.R5', 'insertion index by map position after a tombstone sweep; add_* insert there', r5_insertion, floor=6),
+    Rule('C10.R7', 'delete_segment removes exactly the first matching segment (constant propagation)', r7_delete_exactly_one, floor=1),
     Rule('C10.R6', 'every path operation searches from the start node that _get_start_node resolved', r6_start_node_used, floor=5),
 ]
